@@ -514,7 +514,7 @@ func randomMapTrace(id int, seed int64, steps int, out *json.Encoder, fixed *map
 		}
 		cfg.Cmp = rng.Intn(4) == 0 && cfg.KT != "struct"
 		cfg.Rev = cfg.Cmp && rng.Intn(2) == 0
-		if (profile == "reload" || profile == "general" || profile == "versions" || profile == "nocache") && cfg.Marsh == "" && rng.Intn(8) == 0 {
+		if (profile == "reload" || profile == "general" || profile == "versions" || profile == "nocache" || profile == "batches") && cfg.Marsh == "" && rng.Intn(8) == 0 {
 			cfg.Marsh = "jsonreg"
 			cfg.NF = "v1" // (in the binary format the element type comes from KeysLike / ValuesLike even then: nil ValuesLike means no values are kept)
 			cfg.KT, cfg.VT = "string", []string{"string", "nilstr", "nilonly"}[rng.Intn(3)]
